@@ -317,6 +317,10 @@ func emissionSet(fset *token.FileSet, info *types.Info, stmts []ast.Stmt, itemNa
 			}
 			switch x := st.(type) {
 			case *ast.IfStmt:
+				// `if n, err := w.Write(…); err != nil {…}`: the initialiser is a statement of its own, checked by this very if
+				if x.Init != nil {
+					addCalls([]ast.Stmt{x.Init, x}, 0, x.Init, guards)
+				}
 				// an error-check if (diverging body without effect calls) is part of error handling, not an emission
 				if blockDiverges(info, x.Body) && x.Else == nil {
 					continue
